@@ -75,11 +75,14 @@ let rec sub n0 m =
             | O -> n0
             | S l -> sub k l)
 
+<<<<<<< HEAD
 (** val eqb : bool -> bool -> bool **)
 
 let eqb b1 b2 =
   if b1 then b2 else if b2 then false else true
 
+=======
+>>>>>>> main
 module Nat =
  struct
   (** val eqb : nat -> nat -> bool **)
@@ -771,6 +774,7 @@ module Z =
     | Lt -> true
     | _ -> false
 
+<<<<<<< HEAD
   (** val gtb : z -> z -> bool **)
 
   let gtb x y =
@@ -778,6 +782,8 @@ module Z =
     | Gt -> true
     | _ -> false
 
+=======
+>>>>>>> main
   (** val eqb : z -> z -> bool **)
 
   let eqb x y =
@@ -792,6 +798,7 @@ module Z =
                  | Zneg q0 -> Coq_Pos.eqb p q0
                  | _ -> false)
 
+<<<<<<< HEAD
   (** val max : z -> z -> z **)
 
   let max n0 m =
@@ -806,6 +813,8 @@ module Z =
     | Gt -> m
     | _ -> n0
 
+=======
+>>>>>>> main
   (** val abs : z -> z **)
 
   let abs = function
@@ -883,6 +892,7 @@ module Z =
   let div a b =
     let (q0, _) = div_eucl a b in q0
 
+<<<<<<< HEAD
   (** val quotrem : z -> z -> z * z **)
 
   let quotrem a b =
@@ -911,6 +921,8 @@ module Z =
   let quot a b =
     fst (quotrem a b)
 
+=======
+>>>>>>> main
   (** val even : z -> bool **)
 
   let even = function
@@ -1029,11 +1041,14 @@ let fPi =
 let fW =
   Npos (XO XH)
 
+<<<<<<< HEAD
 (** val fErr : n **)
 
 let fErr =
   Npos (XI (XO XH))
 
+=======
+>>>>>>> main
 (** val fR : n **)
 
 let fR =
@@ -1054,6 +1069,7 @@ let fComp =
 let fZ =
   Npos (XO (XI (XI XH)))
 
+<<<<<<< HEAD
 (** val fGen : n **)
 
 let fGen =
@@ -1069,6 +1085,8 @@ let fX =
 let fSub =
   Npos (XI (XI (XO (XO XH))))
 
+=======
+>>>>>>> main
 (** val edge : n -> n -> n -> var **)
 
 let edge u v i =
@@ -1630,6 +1648,7 @@ let aug_edges v e s t s0 t0 =
 
 type edge1 = n * n
 
+<<<<<<< HEAD
 (** val eqe : edge1 -> edge1 -> bool **)
 
 let eqe e1 e2 =
@@ -2072,6 +2091,9 @@ let certificate_ok v e s t w0 a p =
 type edge2 = n * n
 
 type graph = edge2 list
+=======
+type graph = edge1 list
+>>>>>>> main
 
 (** val pop_out : graph -> n -> (n * graph) option **)
 
@@ -2095,8 +2117,13 @@ let rec trail fuel g cur =
        let (nxt, g1) = p in
        (match trail f g1 nxt with
         | Some p0 ->
+<<<<<<< HEAD
           let (p1, st0) = p0 in
           let (g', w0) = p1 in Some ((g', (nxt :: w0)), (cur :: st0))
+=======
+          let (p1, st) = p0 in
+          let (g', w0) = p1 in Some ((g', (nxt :: w0)), (cur :: st))
+>>>>>>> main
         | None -> None)
      | None -> Some ((g, []), []))
 
@@ -2114,8 +2141,13 @@ let rec closed_from fuel g start cur =
        then Some ((g1, (nxt :: [])), (cur :: []))
        else (match closed_from f g1 start nxt with
              | Some p0 ->
+<<<<<<< HEAD
                let (p1, st0) = p0 in
                let (g', w0) = p1 in Some ((g', (nxt :: w0)), (cur :: st0))
+=======
+               let (p1, st) = p0 in
+               let (g', w0) = p1 in Some ((g', (nxt :: w0)), (cur :: st))
+>>>>>>> main
              | None -> None)
      | None -> Some ((g, []), []))
 
@@ -2140,15 +2172,25 @@ let rec phase2 fuel efuel g w0 stack =
   | S f ->
     (match stack with
      | [] -> Some (g, w0)
+<<<<<<< HEAD
      | v :: st0 ->
+=======
+     | v :: st ->
+>>>>>>> main
        if has_out g v
        then (match closed_from efuel g v v with
              | Some p ->
                let (p0, pushed) = p in
                let (g', c) = p0 in
+<<<<<<< HEAD
                phase2 f efuel g' (splice w0 v c) (app (rev pushed) st0)
              | None -> None)
        else phase2 f efuel g w0 st0)
+=======
+               phase2 f efuel g' (splice w0 v c) (app (rev pushed) st)
+             | None -> None)
+       else phase2 f efuel g w0 st)
+>>>>>>> main
 
 (** val reconstruct : graph -> n -> (graph * n list) option **)
 
@@ -2156,8 +2198,13 @@ let reconstruct g s =
   let n0 = S (length g) in
   (match trail n0 g s with
    | Some p ->
+<<<<<<< HEAD
      let (p0, st0) = p in
      let (g1, w0) = p0 in phase2 (mul (S (S O)) n0) n0 g1 (s :: w0) (rev st0)
+=======
+     let (p0, st) = p in
+     let (g1, w0) = p0 in phase2 (mul (S (S O)) n0) n0 g1 (s :: w0) (rev st)
+>>>>>>> main
    | None -> None)
 
 (** val round_half_even : q -> z **)
@@ -2173,7 +2220,11 @@ let round_half_even q0 =
        then Z.add fl (Zpos XH)
        else if Z.even fl then fl else Z.add fl (Zpos XH)
 
+<<<<<<< HEAD
 (** val residual_q : (edge2 * q) list -> graph **)
+=======
+(** val residual_q : (edge1 * q) list -> graph **)
+>>>>>>> main
 
 let residual_q es =
   flat_map (fun pat ->
@@ -2190,13 +2241,18 @@ let strip_st s t w0 = match w0 with
      if (&&) (N.eqb a s) (N.eqb (last r0 a) t) then removelast r0 else w0)
 
 (** val solution_walk :
+<<<<<<< HEAD
     (edge2 * q) list -> n -> n -> (nat * n list) option **)
+=======
+    (edge1 * q) list -> n -> n -> (nat * n list) option **)
+>>>>>>> main
 
 let solution_walk es s t =
   match reconstruct (residual_q es) s with
   | Some p -> let (g', w0) = p in Some ((length g'), (strip_st s t w0))
   | None -> None
 
+<<<<<<< HEAD
 (** val fY : n **)
 
 let fY =
@@ -2783,6 +2839,8 @@ let corrected_graph i nodes edges x =
     (map (fun e -> (e,
       (if has_flow i e then Some (corrected_value i x e) else None))) edges))
 
+=======
+>>>>>>> main
 type str = n list
 
 (** val is_ws : n -> bool **)
@@ -3354,9 +3412,15 @@ let rec scan lines hdrs seen cstr =
   | [] -> (([], hdrs), cstr)
   | l :: r0 ->
     if is_hdr l
+<<<<<<< HEAD
     then let st0 = lstrip l in
          if starts_with (c_hash :: (c_S :: [])) st0
          then let nodes_part = strip (skipn (S (S O)) st0) in
+=======
+    then let st = lstrip l in
+         if starts_with (c_hash :: (c_S :: [])) st
+         then let nodes_part = strip (skipn (S (S O)) st) in
+>>>>>>> main
               (match nodes_part with
                | [] -> scan r0 hdrs seen cstr
                | _ :: _ ->
@@ -3368,7 +3432,11 @@ let rec scan lines hdrs seen cstr =
                        | p :: l0 ->
                          scan r0 hdrs (toks :: seen)
                            (app cstr ((p :: l0) :: []))))
+<<<<<<< HEAD
          else scan r0 (app hdrs ((strip (lstrip_hash st0)) :: [])) seen cstr
+=======
+         else scan r0 (app hdrs ((strip (lstrip_hash st)) :: [])) seen cstr
+>>>>>>> main
     else ((lines, hdrs), cstr)
 
 (** val skip_blank : str list -> str list **)
@@ -3567,6 +3635,7 @@ let rec show_aux fuel n0 acc =
 let show_N n0 =
   show_aux (S (N.to_nat (N.log2 n0))) n0 []
 
+<<<<<<< HEAD
 (** val sumL : ('a1 -> z) -> 'a1 list -> z **)
 
 let sumL g l =
@@ -3745,6 +3814,8 @@ let peel_inputs_ok g p s topo =
 let explains_ok w0 d =
   forallb (fun p -> Z.eqb (explained d (fst p)) (snd p)) w0
 
+=======
+>>>>>>> main
 (** val qabs : q -> q **)
 
 let qabs x =
@@ -3791,6 +3862,7 @@ let kinit c =
 
 (** val kstep : kcfg -> kstate -> kop -> kstate * kout **)
 
+<<<<<<< HEAD
 let kstep c st0 = function
 | Solve r0 ->
   if c.external0
@@ -3818,6 +3890,35 @@ let rec kruns c st0 = function
 | [] -> (st0, [])
 | o :: r0 ->
   let (st1, x) = kstep c st0 o in
+=======
+let kstep c st = function
+| Solve r0 ->
+  if c.external0
+  then ({ solved = true; cached = st.cached }, (RetBool true))
+  else if is_optimal (status_of r0)
+       then ({ solved = true; cached = ((||) st.cached c.obj_fills_cache) },
+              (RetBool true))
+       else ({ solved = false; cached = st.cached }, (RetBool false))
+| GetSolution ->
+  if st.cached
+  then (st, RetData)
+  else if st.solved
+       then ({ solved = true; cached = true }, RetData)
+       else (st, Raise)
+| GetObjective ->
+  if st.solved
+  then ({ solved = true; cached = ((||) st.cached c.obj_fills_cache) },
+         RetData)
+  else (st, Raise)
+| IsSolvedQ -> (st, (RetBool st.solved))
+
+(** val kruns : kcfg -> kstate -> kop list -> kstate * kout list **)
+
+let rec kruns c st = function
+| [] -> (st, [])
+| o :: r0 ->
+  let (st1, x) = kstep c st o in
+>>>>>>> main
   let (st2, xs) = kruns c st1 r0 in (st2, (x :: xs))
 
 (** val kinvocations : kcfg -> kop list -> nat **)
@@ -3837,7 +3938,11 @@ type result =
 | Crashed
 | Starved
 
+<<<<<<< HEAD
 type outcome0 = { so_res : result; used : nat; aux : nat; lbk : nat }
+=======
+type outcome = { so_res : result; used : nat; aux : nat; lbk : nat }
+>>>>>>> main
 
 (** val kloop :
     (nat -> bool) -> (nat -> bool) -> nat list -> raw list -> nat ->
@@ -3891,12 +3996,26 @@ let rec mgs_loop mgs_skips ks sts n0 =
           then mgs_loop mgs_skips ks' sts' (S n0)
           else (NotSolved, (S n0))))
 
+<<<<<<< HEAD
 (** val mgs_range : nat -> nat -> nat list **)
 
 let mgs_range lb nnumbers =
   krange lb (Nat.max (add lb (S O)) nnumbers)
 
 (** val mgs_solve : bool -> nat -> nat -> raw list -> outcome0 **)
+=======
+(** val mgs_upper : nat -> nat -> nat **)
+
+let mgs_upper lb nnumbers =
+  Nat.max (add lb (S O)) (add nnumbers (S (S O)))
+
+(** val mgs_range : nat -> nat -> nat list **)
+
+let mgs_range lb nnumbers =
+  krange lb (mgs_upper lb nnumbers)
+
+(** val mgs_solve : bool -> nat -> nat -> raw list -> outcome **)
+>>>>>>> main
 
 let mgs_solve mgs_skips lb nnumbers sts =
   let (r0, n0) = mgs_loop mgs_skips (mgs_range lb nnumbers) sts O in
@@ -3930,7 +4049,11 @@ let given_match given k =
   | Some g -> Nat.eqb g k
   | None -> false
 
+<<<<<<< HEAD
 (** val fd_solve : bool -> bool -> fd_params -> raw list -> outcome0 **)
+=======
+(** val fd_solve : bool -> bool -> fd_params -> raw list -> outcome **)
+>>>>>>> main
 
 let fd_solve mgs_skips exit_on_fail p sts =
   match lb_phase mgs_skips exit_on_fail p.use_mgs p.lb0 p.nweights sts with
@@ -3956,21 +4079,33 @@ let fd_solve mgs_skips exit_on_fail p sts =
   | LExit n0 -> { so_res = Exited; used = n0; aux = n0; lbk = p.lb0 }
   | LStarved n0 -> { so_res = Starved; used = n0; aux = n0; lbk = p.lb0 }
 
+<<<<<<< HEAD
 (** val mfd_solve : bool -> bool -> fd_params -> raw list -> outcome0 **)
+=======
+(** val mfd_solve : bool -> bool -> fd_params -> raw list -> outcome **)
+>>>>>>> main
 
 let mfd_solve mgs_skips exit_on_fail p sts =
   fd_solve mgs_skips exit_on_fail { lb0 = p.lb0; upper_excl = p.upper_excl;
     nedges = p.nedges; use_mgs = p.use_mgs; nweights = p.nweights; guessed =
     p.guessed; gw_paths = p.gw_paths; greedy = p.greedy; over = never } sts
 
+<<<<<<< HEAD
 (** val mfdc_solve : bool -> fd_params -> raw list -> outcome0 **)
+=======
+(** val mfdc_solve : bool -> fd_params -> raw list -> outcome **)
+>>>>>>> main
 
 let mfdc_solve mgs_skips p sts =
   fd_solve mgs_skips false { lb0 = p.lb0; upper_excl = p.upper_excl; nedges =
     p.nedges; use_mgs = p.use_mgs; nweights = p.nweights; guessed =
     p.guessed; gw_paths = p.gw_paths; greedy = never; over = p.over } sts
 
+<<<<<<< HEAD
 (** val mpc_solve : bool -> nat -> nat -> raw list -> outcome0 **)
+=======
+(** val mpc_solve : bool -> nat -> nat -> raw list -> outcome **)
+>>>>>>> main
 
 let mpc_solve upper_excl0 lb nedges0 sts =
   let (r0, n0) =
@@ -3978,7 +4113,11 @@ let mpc_solve upper_excl0 lb nedges0 sts =
   in
   { so_res = r0; used = n0; aux = O; lbk = lb }
 
+<<<<<<< HEAD
 (** val mpcc_solve : bool -> nat -> nat -> raw list -> outcome0 **)
+=======
+(** val mpcc_solve : bool -> nat -> nat -> raw list -> outcome **)
+>>>>>>> main
 
 let mpcc_solve upper_excl0 lb nedges0 sts =
   let (r0, n0) =
@@ -4061,7 +4200,11 @@ let rec npo_loop p ks sts prev n0 =
                  then (NotSolved, (S n0))
                  else npo_loop p ks' sts' prev (S n0))
 
+<<<<<<< HEAD
 (** val npo_solve : npo_params -> raw list -> outcome0 **)
+=======
+(** val npo_solve : npo_params -> raw list -> outcome **)
+>>>>>>> main
 
 let npo_solve p sts =
   let (r0, n0) = npo_loop p (krange p.kstart (add p.kmax (S O))) sts None O in
@@ -4083,14 +4226,22 @@ let run_kmodel ext objfill ops =
   let c = { external0 = ext; obj_fills_cache = objfill } in
   ((snd (kruns c (kinit c) ops)), (kinvocations c ops))
 
+<<<<<<< HEAD
 (** val run_mgs : bool -> nat -> nat -> raw list -> outcome0 **)
+=======
+(** val run_mgs : bool -> nat -> nat -> raw list -> outcome **)
+>>>>>>> main
 
 let run_mgs =
   mgs_solve
 
 (** val run_mfd :
     bool -> bool -> bool -> nat -> nat -> bool -> nat -> bool -> nat -> bool
+<<<<<<< HEAD
     list -> raw list -> outcome0 **)
+=======
+    list -> raw list -> outcome **)
+>>>>>>> main
 
 let run_mfd skips exits excl lb1 ne umgs nw gu gw gr sts =
   mfd_solve skips exits { lb0 = lb1; upper_excl = excl; nedges = ne;
@@ -4099,26 +4250,42 @@ let run_mfd skips exits excl lb1 ne umgs nw gu gw gr sts =
 
 (** val run_mfdc :
     bool -> bool -> nat -> nat -> bool -> nat -> bool -> nat -> bool list ->
+<<<<<<< HEAD
     raw list -> outcome0 **)
+=======
+    raw list -> outcome **)
+>>>>>>> main
 
 let run_mfdc skips excl lb1 ne umgs nw gu gw ov sts =
   mfdc_solve skips { lb0 = lb1; upper_excl = excl; nedges = ne; use_mgs =
     umgs; nweights = nw; guessed = gu; gw_paths = gw; greedy = never; over =
     (of_list ov) } sts
 
+<<<<<<< HEAD
 (** val run_mpc : bool -> nat -> nat -> raw list -> outcome0 **)
+=======
+(** val run_mpc : bool -> nat -> nat -> raw list -> outcome **)
+>>>>>>> main
 
 let run_mpc =
   mpc_solve
 
+<<<<<<< HEAD
 (** val run_mpcc : bool -> nat -> nat -> raw list -> outcome0 **)
+=======
+(** val run_mpcc : bool -> nat -> nat -> raw list -> outcome **)
+>>>>>>> main
 
 let run_mpcc =
   mpcc_solve
 
 (** val run_npo :
     nat -> nat -> bool -> q option -> q option -> bool list -> q list -> bool
+<<<<<<< HEAD
     list -> raw list -> outcome0 **)
+=======
+    list -> raw list -> outcome **)
+>>>>>>> main
 
 let run_npo ks km ff da dr ext obj0 ov sts =
   npo_solve { kstart = ks; kmax = km; first_feasible = ff; delta_abs = da;
@@ -4137,14 +4304,24 @@ type op =
 | QueueLb of nat * q
 | Optimize
 
+<<<<<<< HEAD
 (** val upd0 : wcol list -> nat -> (wcol -> wcol) -> wcol list **)
 
 let rec upd0 cs i f =
+=======
+(** val upd : wcol list -> nat -> (wcol -> wcol) -> wcol list **)
+
+let rec upd cs i f =
+>>>>>>> main
   match cs with
   | [] -> []
   | c :: r0 -> (match i with
                 | O -> (f c) :: r0
+<<<<<<< HEAD
                 | S j -> c :: (upd0 r0 j f))
+=======
+                | S j -> c :: (upd r0 j f))
+>>>>>>> main
 
 (** val fixc : q -> wcol -> wcol **)
 
@@ -4160,8 +4337,13 @@ let raisec v c =
     wcol list -> (nat * q) list -> (nat * q) list -> wcol list **)
 
 let apply_pending cs fixes lbs =
+<<<<<<< HEAD
   fold_left (fun cs0 iv -> upd0 cs0 (fst iv) (raisec (snd iv))) lbs
     (fold_left (fun cs0 iv -> upd0 cs0 (fst iv) (fixc (snd iv))) fixes cs)
+=======
+  fold_left (fun cs0 iv -> upd cs0 (fst iv) (raisec (snd iv))) lbs
+    (fold_left (fun cs0 iv -> upd cs0 (fst iv) (fixc (snd iv))) fixes cs)
+>>>>>>> main
 
 (** val setcost : q -> wcol -> wcol **)
 
@@ -4176,7 +4358,11 @@ let addcost q0 c =
 (** val set_costs : wcol list -> (nat * q) list -> wcol list **)
 
 let set_costs cs terms =
+<<<<<<< HEAD
   fold_left (fun cs0 iv -> upd0 cs0 (fst iv) (addcost (snd iv))) terms
+=======
+  fold_left (fun cs0 iv -> upd cs0 (fst iv) (addcost (snd iv))) terms
+>>>>>>> main
     (map (setcost { qnum = Z0; qden = XH }) cs)
 
 (** val step : wst -> op -> wst **)
